@@ -235,9 +235,9 @@ def prodOp (op : String) (args : List String) : Option String :=
         let r := dumpNamedEdgesOrig es
         showY (.seq [r.1, .seq (r.2.map fun e => .seq [.seq e.modules, numY e.weight])])
   | "floorset" =>
-    (runP (pY (α := α)) args).bind fun t => (oFsInst t).map fun f =>
+    (runP (pY (α := α)) args).bind fun t => (oFsInst t).map fun (f : FsInst α) =>
       match writeFPEF fsEps f, writeDIEF f with
-      | .ok r, .ok d => showY (.seq [r.1, d])
+      | .ok r, .ok d => showY (α := α) (.seq [r.1, d])
       | _, _ => "err:ValueError"
   | "rectio" =>
     (runP (pY (α := α)) args).bind fun t => (oList oCell t).map fun cells => showY (rioTree cells)
